@@ -244,6 +244,16 @@ func GeneratedConvs(sc *Scenario) []FuncSpec {
 	var out []FuncSpec
 	seen := map[string]bool{}
 	for gi, g := range sc.Gens {
+		if g.Mode == "odd" {
+			// only supplied values carry a value when the generators run
+			for _, in := range EffectiveInputs(sc.Inputs) {
+				if in.L.Type == g.From && in.Tok%2 == 1 {
+					out = append(out, FuncSpec{ID: 1000000 * g.ID, In: []Label{{Type: g.From, Dyn: g.From, Sub: in.L.Sub}}, InForm: FormStruct,
+						Out: []Label{{Type: g.To, Dyn: g.To}}, OutForm: FormStruct, HasErr: true, Built: true})
+				}
+			}
+			continue
+		}
 		if g.Mode != "conv" {
 			continue
 		}
